@@ -8,6 +8,7 @@ import (
 	"io"
 	"net"
 	"os"
+	"sync/atomic"
 	"time"
 
 	"verif/harness/resp"
@@ -29,6 +30,7 @@ type Conn struct {
 	// Raw accumulates every byte received (when KeepRaw is set)
 	KeepRaw bool
 	Raw     []byte
+	sent    atomic.Int64
 }
 
 func Dial(port int) (*Conn, error) {
@@ -68,9 +70,13 @@ func (c *Conn) CloseWrite() {
 
 func (c *Conn) Send(b []byte) error {
 	c.C.SetWriteDeadline(time.Now().Add(10 * time.Second))
-	_, err := c.C.Write(b)
+	n, err := c.C.Write(b)
+	c.sent.Add(int64(n))
 	return err
 }
+
+// SentBytes: bytes written so far (readable from another goroutine while SendCuts runs).
+func (c *Conn) SentBytes() int64 { return c.sent.Load() }
 
 // SendCuts writes b in segments ending at the given offsets (ascending,
 // exclusive ends), sleeping delay between segments.
